@@ -78,6 +78,19 @@ InnerWellFormed(L, tops, inner, HasK(_), K(_), Before(_, _), opt) ==
      /\ ~opt.has => s = <<>>
 
 -----------------------------------------------------------------------------
+(* Deviation S18a (known finding).  The collapse step does not see the     *)
+(* ranked list but the candidate list of the request: `cand` = limit + 1    *)
+(* hits.  When the request sort is plain score-descending the engine keeps *)
+(* the best `cand` hits of EVERY segment, so the list that is collapsed is *)
+(* the global top `cand` followed by hits of other segments with gaps in   *)
+(* between; a group whose best hit fell into a gap is represented by a     *)
+(* worse one.  Other sort plans collapse the exact prefix L[1..cand].      *)
+AsBuiltCandidates(L, SegOf(_), cand, perSegment) ==
+  IF perSegment
+    THEN SelectSeq(L, LAMBDA h : Cardinality({j \in 1..PosIn(L, h) : SegOf(L[j]) = SegOf(h)}) <= cand)
+    ELSE SubSeq(L, 1, MinI(cand, Len(L)))
+
+-----------------------------------------------------------------------------
 (* Trace check.  e.base = the observed response without `collapse` under a *)
 (* limit that covers every match (judged by C10); e.obs = the collapsed    *)
 (* response.  e.cover: the collapsed request's limit covers every match    *)
@@ -104,6 +117,22 @@ CheckCollapse(D, docs, e, l, scn) ==
       exp == Collapsed(L, HasK, K, Before, opt)
       nMissing == Cardinality({i \in DOMAIN L : ~HasK(L[i])})
       nGroups == Len(exp.tops)
+      structWhy ==
+        IF ~OnePerValue(tops, K) THEN "two hits share one value of the collapse field"
+        ELSE IF ~RepIsBest(L, tops, HasK, K) THEN "a returned hit is not the best-ranked document of its group"
+        ELSE IF ~GroupOrder(L, tops) THEN "groups are not in the order of their best hits"
+        ELSE IF ~InnerWellFormed(L, tops, inner, HasK, K, Before, opt)
+          THEN "inner hits leak across groups, repeat, exceed size or are not in inner-sort order"
+        ELSE ""
+      structOk == structWhy = ""
+      SegOf(h) == LiveDoc(docs, h.id).seg
+      scoreDesc == <<[kind |-> "score", f |-> "_score", desc |-> TRUE]>>
+      asb == Collapsed(AsBuiltCandidates(L, SegOf, e.limit + 1, e.sort = scoreDesc), HasK, K, Before, opt)
+      asBuiltExplains ==
+        /\ ~e.cover
+        /\ Len(obsV) = Len(obsAll)
+        /\ tops = SubSeq(asb.tops, 1, MinI(Len(asb.tops), e.limit))
+        /\ inner = SubSeq(asb.inner, 1, Len(tops))
       groupsOk == /\ e.obs.hasgroups
                   /\ e.obs.groups >= nGroups /\ e.obs.groups <= nGroups + nMissing
   IN IF ~e.base.ok \/ ~e.obs.ok
@@ -114,14 +143,10 @@ CheckCollapse(D, docs, e, l, scn) ==
        THEN Tell("FAIL", e.prop, l, scn, e, "a collapsed hit (or its score) does not occur in the uncollapsed ranking", "")
      ELSE IF Len(e.obs.ids) > e.limit
        THEN Tell("FAIL", e.prop, l, scn, e, "more hits than the limit", "")
-     ELSE IF ~OnePerValue(tops, K)
-       THEN Tell("FAIL", e.prop, l, scn, e, "two hits share one value of the collapse field", "")
-     ELSE IF ~RepIsBest(L, tops, HasK, K)
-       THEN Tell("FAIL", e.prop, l, scn, e, "a returned hit is not the best-ranked document of its group", "")
-     ELSE IF ~GroupOrder(L, tops)
-       THEN Tell("FAIL", e.prop, l, scn, e, "groups are not in the order of their best hits", "")
-     ELSE IF ~InnerWellFormed(L, tops, inner, HasK, K, Before, opt)
-       THEN Tell("FAIL", e.prop, l, scn, e, "inner hits leak across groups, repeat, exceed size or are not in inner-sort order", "")
+     ELSE IF ~structOk
+       THEN IF asBuiltExplains
+              THEN Tell("DEV", e.prop, l, scn, e, "collapse runs on per-segment candidate lists: a returned hit is not the best of its group", "S18a")
+              ELSE Tell("FAIL", e.prop, l, scn, e, structWhy, "")
      ELSE IF e.cover /\ tops # SubSeq(exp.tops, 1, MinI(Len(exp.tops), e.limit))
        THEN Tell("FAIL", e.prop, l, scn, e, "a group is missing from the collapsed response", "")
      ELSE IF e.cover /\ inner # SubSeq(exp.inner, 1, Len(tops))
